@@ -8,6 +8,7 @@ import (
 	"math/bits"
 	"sort"
 	"strings"
+	"tinkverif/bounds"
 
 	"golang.org/x/tools/go/ssa"
 
@@ -292,18 +293,34 @@ func c10Hint(c *Ctx) {
 	}
 	facts := guard.InstrFacts(set)
 	isOmega := func(v ssa.Value) bool { _, fld, ok := guard.FieldOf(v); return ok && fld == "omega" }
+	cxh := bounds.NewCtx(f)
+	omegaCoef := func(l bounds.Lin) (int64, bool) {
+		var k int64
+		n := 0
+		for a, c := range l.Coef {
+			if strings.HasSuffix(a, ".omega") && c != 0 {
+				k = c
+				n++
+			}
+		}
+		return k, n == 1
+	}
 	isCounter := func(v ssa.Value) bool {
-		// int(encoded[omega+i])
+		// int(encoded[omega+i]), also read through a re-slicing of encoded (ends := encoded[omega:omega+k]; ends[i])
 		u, ok := guard.Strip(v).(*ssa.UnOp)
 		if !ok {
 			return false
 		}
 		ia, ok := u.X.(*ssa.IndexAddr)
-		if !ok || guard.Strip(ia.X) != ssa.Value(f.Params[1]) {
+		if !ok {
 			return false
 		}
-		add, ok := guard.Strip(ia.Index).(*ssa.BinOp)
-		return ok && add.Op == token.ADD && (isOmega(add.X) || isOmega(add.Y))
+		base, off := absSliceStart(cxh, ia.X)
+		if base != ssa.Value(f.Params[1]) {
+			return false
+		}
+		k, one := omegaCoef(off.Add(cxh.Lin(ia.Index), 1))
+		return one && k == 1
 	}
 	geIndex, leOmega := false, false
 	for _, fct := range facts {
@@ -458,8 +475,14 @@ func c10Hint(c *Ctx) {
 						nonZero = false
 					}
 				}
-				if sl, isSl := guard.Strip(pc.Call.Args[0]).(*ssa.Slice); isSl && nonZero && guard.Strip(sl.X) == ssa.Value(f.Params[1]) && sl.High != nil && isOmega(sl.High) {
-					padOK = true
+				if _, isSl := guard.Strip(pc.Call.Args[0]).(*ssa.Slice); isSl && nonZero {
+					// the scanned region ends at encoded[omega] (also through positions := encoded[:omega])
+					base, lo := absSliceStart(cxh, pc.Call.Args[0])
+					hi := lo.Add(cxh.LenOf(pc.Call.Args[0]), 1)
+					k, one := omegaCoef(hi)
+					if base == ssa.Value(f.Params[1]) && one && k == 1 && nonZeroCoefs(hi) == 1 && hi.C == 0 {
+						padOK = true
+					}
 				}
 			}
 		}
@@ -663,4 +686,14 @@ func signPrefixRule(c *Ctx, prop string, pkgs []string) {
 	}
 	r.Min(rule, 3)
 	_ = n
+}
+
+func nonZeroCoefs(l bounds.Lin) int {
+	n := 0
+	for _, c := range l.Coef {
+		if c != 0 {
+			n++
+		}
+	}
+	return n
 }
